@@ -317,7 +317,7 @@ def run_repeat(c) -> CaseResult:
 
 CHECK = Check(
     id="C17",
-    parts=[Part("chains", run, strategy=cases, budget={"quick": 100, "thorough": 2000}),
+    parts=[Part("chains", run, strategy=cases, budget={"quick": 160, "thorough": 2000}),
            Part("repeat", run_repeat, strategy=repeat_cases, budget={"quick": 6, "thorough": 60})],
     rule=("Hypothesis histories: a module (DSL program over torch ops, or a block built from unit-scaled layers) x a chain using unit_scale at most "
           "once and at most one format simulation (simulate_fp8, lossless E8M23, E5M2-nearest, stochastic E4M3 with srbits=3; random source pinned) "
